@@ -206,5 +206,9 @@ package router
 // 17-40 s and is not claimed)
 //@   invariant 1 path-so-far [C08]: fresh(base(switchPath.Hops)) && base(switchPath.Hops) != base(hops) && len(switchPath.Hops) == rangeindex + 2 && rangeindex + 1 <= len(hops) && (forall j int :: 0 <= j && j <= rangeindex ==> switchPath.Hops[j+1].Router == hops[j].Router && switchPath.Hops[j+1].Delay == hops[j].Delay && switchPath.Hops[j+1].ForwardLabel == hops[j].ForwardLabel && switchPath.Hops[j+1].ReturnLabel == hops[j].ReturnLabel)
 //@   cutat m.SwitchPath.CalculateTotals still-accepted [C08]: nonnil(recvLink) && msg != nil && f.data != nil && f.src.IsValid() && (len(hops) == 0 ==> f.src == recvLink.Peer()) && (len(hops) > 0 ==> hops[0].Router == recvLink.Peer()) && len(switchPath.Hops) == len(hops) + 2
+// (The next clause FAILS on the current code: the tolerated exact duplicate of the newest announcement - authenticated,
+// but refused by the sequence check, so unsealedBy is nil - runs through the whole handler like a fresh one and
+// reaches AddRoute - see /verif/KNOWN_FINDINGS.txt, C07 "duplicate announcement changes the routing table".)
+//@   callsite m.RoutingTable.AddRoute duplicate-announcements-leave-the-routing-table-alone [C07]: f.unsealedBy != nil
 //@   callsite m.RoutingTable.AddRoute deliverer-is-outermost-signer [C08]: f.src.IsValid() && (len(hops) == 0 ==> f.src == recvLink.Peer()) && (len(hops) > 0 ==> hops[0].Router == recvLink.Peer())
 //@   callsite m.RoutingTable.AddRoute route-to-origin-via-deliverer [C08]: arg1.DstIP == f.src && arg1.NextHop == recvLink.Peer() && len(arg1.Path.Hops) == len(hops) + 2
